@@ -328,6 +328,11 @@ func vcStartServer(o vcSrvOpts) (*vcSrv, error) {
 	}
 	s.Evl = evl
 	go func() { s.ServeErr <- evl.Serve(ln) }()
+	// Serve installs the server asynchronously; a Shutdown before that is a no-op that would
+	// leave the listener open (harness misuse, not a finding): wait until it is installed
+	if vc13ServerOf(evl) == nil {
+		return nil, fmt.Errorf("Serve did not start")
+	}
 	return s, nil
 }
 
